@@ -109,6 +109,9 @@ func C09(c *core.Ctx) {
 		if i%5 == 4 {
 			j = kj.Lifecycle(rng, 18290, 3+rng.Intn(3), rng.Intn(2), true)
 			valued[i] = false
+			if i%10 == 9 {
+				j.QS = 100 // the same journal in cents: amounts and asserted balances below one unit (0.30, -0.07)
+			}
 		} else {
 			accts := append([]string{"Assets:Überweisung:Konto", "Expenses:Café"}, kj.DefaultAccounts...)
 			j = kj.Random(rng, kj.GenOpts{Valued: valued[i], Accruals: !valued[i], MaxDirs: 10, Accounts: accts}, 18262+rng.Intn(60))
